@@ -14,9 +14,11 @@ UNITS = [U + "get_straight_edge_versor_from_vid", U + "get_vector_from_vertex", 
          U + "get_vertex_object_by_id", U + "get_vertices_ids", "forsys.virtual_edges:calculate_circle_center"]
 
 
-def arc(ctx, n, on_circle=True, first_id=0, beid=0):
+def arc(ctx, n, on_circle=True, first_id=0, beid=0, moved=False):
     """n symbolic points; if on_circle: all at the same distance from a symbolic centre which the circle fit is
-    assumed to return (A-fit)"""
+    assumed to return (A-fit) - provided it is handed exactly the interface's points at their CURRENT positions (checked at the call).
+    moved: the interface is constructed somewhere else and its vertices are then moved in place to the points
+    (as TimeSeries does when it subtracts the centre of mass, or Frame.filter_edges when it smooths)"""
     pts = [(ctx.real(f"x{i}"), ctx.real(f"y{i}")) for i in range(n)]
     cx = cy = None
     if on_circle:
@@ -25,11 +27,24 @@ def arc(ctx, n, on_circle=True, first_id=0, beid=0):
         ctx.assume(r2 > 0, "pre")
         for p in pts[1:]:
             ctx.assume(ctx.close((p[0] - cx) * (p[0] - cx) + (p[1] - cy) * (p[1] - cy), r2), "A-fit:on-circle")
-        ctx.stub("forsys.virtual_edges:calculate_circle_center", lambda it, a, k: (cx, cy),
+        def fit(it, a, k):
+            given = ctx.list_of(a[0])
+            ctx.ensure(len(given) == n and ctx.And(*[ctx.And(ctx.close(ctx.get(v, "x"), p[0]), ctx.close(ctx.get(v, "y"), p[1])) for v, p in zip(given, pts)]),
+                       "the circle is fitted through the interface's points at their current positions")
+            return (cx, cy)
+        ctx.stub("forsys.virtual_edges:calculate_circle_center", fit,
                  "A-fit: the circle fit returns the centre of the circle the interface points lie on")
-    vs = mk_vertices(ctx, pts, ids=[first_id + i for i in range(n)])
+    if moved:
+        ox, oy = ctx.real("ox"), ctx.real("oy")
+        vs = mk_vertices(ctx, [(p[0] + ox, p[1] + oy) for p in pts], ids=[first_id + i for i in range(n)])
+    else:
+        vs = mk_vertices(ctx, pts, ids=[first_id + i for i in range(n)])
     es = mk_small_edges(ctx, vs, first_id)
     be = mk_bigedge(ctx, beid, vs)
+    if moved:
+        for v, p in zip(vs, pts):
+            ctx.set(v, "x", p[0])
+            ctx.set(v, "y", p[1])
     return be, vs, pts, (cx, cy)
 
 
@@ -76,9 +91,9 @@ def _axis_between(ctx, t, d):
             "circular interface (>=3 points): the vector at an end junction is parallel to the circle's tangent there and points along the first segment",
             known={"axis-between": "KF-C02-sign-forcing"})
 def o02_3a(tier):
-    def mk(n, at_end, fit, klass):
+    def mk(n, at_end, fit, klass, moved=False):
         def h(ctx):
-            be, vs, pts, (cx, cy) = arc(ctx, n)
+            be, vs, pts, (cx, cy) = arc(ctx, n, moved=moved)
             P = pts[-1] if at_end else pts[0]
             Q = pts[-2] if at_end else pts[1]
             distinct_pts(ctx, P, Q)
@@ -98,6 +113,7 @@ def o02_3a(tier):
            for n in ((3, 4) if tier == "quick" else (3, 4, 5, 9, 17)) for e in (False, True) for fit in ("dlite", "taubinSVD")
            if tier != "quick" or n == 3 or fit == "dlite"]
     out.append(("axis-between", mk(3, False, "dlite", True)))
+    out += [(f"n=3,{'last' if e else 'first'},{fit},vertices-moved-after-construction", mk(3, e, fit, False, moved=True)) for e, fit in ((False, "dlite"), (True, "taubinSVD"))]
 
     def h_twice(ctx):
         # frame condition / no memo: a second call with the other fit method uses THAT fit's centre (C10: results are a function of the last call's arguments)
